@@ -617,6 +617,231 @@ pub fn large_scenario(r: &mut Report, seed: u64, servers: usize, pairs: usize) {
     }
 }
 
+/// Several publishers under one key: announcers on one info hash, two of them behind the same IP address
+/// (another port) and one elsewhere, with explicit and implied ports, and several signers announcing on one
+/// info hash. Every put returned Ok, so a later lookup on another node must return each announcer's
+/// (IP, port) / each signer's announcement - one publisher must not displace another. Then the first
+/// announcer announces again with another port, which the next lookup must return.
+pub fn shared_key_scenario(r: &mut Report, seed: u64) {
+    r.eval();
+    let mut rng = Rng::new(seed);
+    let w = World::with_cfg(seed, NetCfg::default(), TraceLevel::Off);
+    let servers = 2 + rng.usize(9);
+    let plan = *rng.pick(&[IpPlan::Public, IpPlan::Private]);
+    let mut net = build_net(&w, servers, 0, plan, false, &mut rng);
+    let signed = rng.bool();
+    let case = json!({"class":"shared-key","seed":seed.to_string(),"servers":servers,"signed":signed,"plan":format!("{plan:?}")});
+    // publishers: node wi, a companion sharing wi's IP (client or server mode), and a third node elsewhere
+    let wi = rng.usize(servers);
+    let w_ip = *net.nodes[wi].addr.ip();
+    let mut spec = if rng.bool() { NodeSpec::client(w_ip, &[net.boot]) } else { NodeSpec::server(w_ip, &[net.boot]) };
+    spec.port = Some(20_000 + rng.usize(20_000) as u16);
+    let Ok(comp) = w.spawn(spec) else {
+        r.count("shared_key/companion-not-spawned");
+        return;
+    };
+    w.block_on(comp.adht.bootstrapped(), 120 * SEC);
+    net.nodes.push(comp);
+    let ci = net.nodes.len() - 1;
+    let ti = (wi + 1 + rng.usize(servers - 1)) % servers;
+    let ri = loop {
+        let x = rng.usize(servers);
+        if x != wi && (x != ti || servers == 2) {
+            break x;
+        }
+    };
+    let ih = Id::from(rng.array::<20>());
+    let pubs = [wi, ci, ti];
+    let bound = 120 * SEC;
+    let mut expect_peers: Vec<(usize, SocketAddrV4)> = vec![];
+    let mut expect_keys: Vec<(usize, [u8; 32])> = vec![];
+    for (j, &pi) in pubs.iter().enumerate() {
+        if pi == ri {
+            continue;
+        }
+        let node = &net.nodes[pi];
+        if signed {
+            let signer = SigningKey::from_bytes(&rng.array::<32>());
+            match w.block_on(node.adht.announce_signed_peer(ih, &signer), bound) {
+                Some(Ok(_)) => expect_keys.push((j, signer.verifying_key().to_bytes())),
+                _ => r.count("puts_not_ok"),
+            }
+        } else {
+            let port = if rng.bool() { Some(1024 + rng.usize(60000) as u16) } else { None };
+            match w.block_on(node.adht.announce_peer(ih, port), bound) {
+                Some(Ok(_)) => expect_peers.push((j, SocketAddrV4::new(*node.addr.ip(), port.unwrap_or(node.addr.port())))),
+                _ => r.count("puts_not_ok"),
+            }
+        }
+        if rng.chance(1, 3) {
+            w.run_for(rng.below(90) * SEC);
+        }
+    }
+    let who = ["first", "same-ip-companion", "other-ip"];
+    let check = |r: &mut Report, round: &str, expect_peers: &[(usize, SocketAddrV4)], expect_keys: &[(usize, [u8; 32])]| {
+        let a = net.nodes[ri].adht.clone();
+        if signed {
+            match w.block_on(async move { a.get_signed_peers(ih).await.collect::<Vec<_>>().await }, 180 * SEC) {
+                None => r.violation("read/shared-key/did-not-complete", "get_signed_peers did not end", case.clone(), json!({})),
+                Some(lists) => {
+                    for (j, pk) in expect_keys {
+                        let ok = lists.iter().flatten().any(|s| s.key() == pk && verify(pk, &announce_signable(ih.as_bytes(), s.timestamp()), s.signature()));
+                        if ok {
+                            r.count(&format!("found/shared-key/{round}/announce_signed_peer"));
+                        } else {
+                            r.violation(&format!("read/shared-key/{round}/not-found/announce_signed_peer/{}", who[*j]), "several signers announced on one info hash (every call returned Ok); a later lookup on another node misses one of them", case.clone(), json!({"publishers": expect_keys.len()}));
+                        }
+                    }
+                }
+            }
+        } else {
+            match w.block_on(async move { a.get_peers(ih).collect::<Vec<_>>().await }, 180 * SEC) {
+                None => r.violation("read/shared-key/did-not-complete", "get_peers did not end", case.clone(), json!({})),
+                Some(lists) => {
+                    for (j, want) in expect_peers {
+                        if lists.iter().flatten().any(|p| p == want) {
+                            r.count(&format!("found/shared-key/{round}/announce_peer"));
+                        } else {
+                            let got: HashSet<String> = lists.iter().flatten().map(|p| p.to_string()).collect();
+                            r.violation(&format!("read/shared-key/{round}/not-found/announce_peer/{}", who[*j]), "several nodes (two of them behind one IP address) announced on one info hash (every call returned Ok); a later lookup on another node misses one announcer's (IP, port)", case.clone(), json!({"want": want.to_string(), "got": got}));
+                        }
+                    }
+                }
+            }
+        }
+    };
+    if expect_peers.len() + expect_keys.len() >= 2 {
+        check(r, "all-publishers", &expect_peers, &expect_keys);
+        r.count("shared_key/lookups_with_two_or_more_publishers");
+        r.nontrivial(mix(seed, w.order_hash()));
+    }
+    // the first announcer announces again, with another explicit port: the new port must be found
+    // (whether the old one is still listed is not the statement's business)
+    if !signed && wi != ri && !expect_peers.is_empty() {
+        let np = 2000 + rng.usize(60000) as u16;
+        if let Some(Ok(_)) = w.block_on(net.nodes[wi].adht.announce_peer(ih, Some(np)), bound) {
+            let mut e2: Vec<(usize, SocketAddrV4)> = expect_peers.iter().filter(|(j, _)| *j != 0).cloned().collect();
+            e2.push((0, SocketAddrV4::new(w_ip, np)));
+            check(r, "after-re-announce", &e2, &expect_keys);
+        }
+    }
+    if w.stuck() {
+        r.inconclusive("scheduler watchdog fired");
+    }
+    drop(net);
+    w.shutdown();
+    for (thread, loc, msg) in crate::take_panics() {
+        r.violation(&format!("panic/{loc}"), &format!("thread {thread} panicked: {msg}"), case.clone(), json!({}));
+    }
+}
+
+/// The reader publishes under the key itself (a mutable item with a mismatching cas / its own signed
+/// announcement) while one node it knows has just crashed: the put's lookup stays open until the request to
+/// the dead node times out (500 ms), whereas every live node has long answered (latencies of a few ms).
+/// A read started in that window joins a lookup whose answers all arrived before the read began.
+pub fn own_put_window_scenario(r: &mut Report, seed: u64) {
+    r.eval();
+    let mut rng = Rng::new(seed);
+    let w = World::with_cfg(seed, NetCfg::default(), TraceLevel::Off);
+    let servers = 3 + rng.usize(8);
+    let mut net = build_net(&w, servers, 0, IpPlan::Private, false, &mut rng);
+    let kinds = ["immutable", "mutable", "announce_peer", "announce_signed_peer"];
+    let kind = if rng.bool() { 1 } else { 3 };
+    let case = json!({"class":"own-put-window","seed":seed.to_string(),"servers":servers,"kind":kinds[kind]});
+    if std::env::var("MLV_DEBUG").is_ok() {
+        eprintln!("net built at t={}ms", w.now() / 1_000_000);
+    }
+    let wi = rng.usize(servers);
+    let mut ri = (wi + 1 + rng.usize(servers - 1)) % servers;
+    let wr = match write(&w, &net, wi, kind, &mut rng) {
+        Ok(x) => x,
+        Err(_) => {
+            r.count("puts_not_ok");
+            return;
+        }
+    };
+    // crash one node other than the reader that leaves at least one acknowledging node besides the reader
+    // premise: afterwards the reader still knows a live node in the routing table this kind of lookup starts from
+    let known: Vec<SocketAddrV4> = snapshot(&w, &net.nodes[ri]).map(|sn| if kind == 3 { sn.signed_table.nodes } else { sn.table.nodes }).unwrap_or_default().iter().map(|n| n.1).collect();
+    let victims: Vec<usize> = (0..servers)
+        .filter(|i| *i != ri && (0..servers).any(|k| k != *i && k != ri && wr.ackers.contains(&net.nodes[k].addr)) && known.iter().any(|a| *a != net.nodes[*i].addr && net.nodes.iter().any(|n| n.addr == *a)))
+        .collect();
+    if victims.is_empty() {
+        r.count("premise_unmet/no-acker-besides-reader-or-reader-knows-nobody-else");
+        return;
+    }
+    let vi = *rng.pick(&victims);
+    let nd = net.nodes.remove(vi);
+    let sck = nd.sock;
+    w.crash_sock(sck);
+    drop(nd);
+    w.reap(sck);
+    if vi < ri {
+        ri -= 1;
+    }
+    w.set_latency(MS, MS + rng.below(25) * MS);
+    let a = net.nodes[ri].adht.clone();
+    let (t, item, signer) = (wr.target, wr.item.clone(), wr.signer.clone());
+    let mut own: Task<()> = if kind == 1 {
+        let old = item.expect("item");
+        let item2 = MutableItem::new(&signer, b"reader's own newer item", old.seq() + 1, old.salt());
+        let cas = Some(old.seq() + 7);
+        Task::new(w.now(), async move { drop(a.put_mutable(item2, cas).await) })
+    } else {
+        let own = SigningKey::from_bytes(&[0x43; 32]);
+        Task::new(w.now(), async move { drop(a.announce_signed_peer(t, &own).await) })
+    };
+    if std::env::var("MLV_DEBUG").is_ok() {
+        if let Some(sn) = snapshot(&w, &net.nodes[ri]) {
+            eprintln!("t={}ms reader table={:?} signed={:?} crashed index {vi}, writer {wi}, ackers {:?}", w.now() / 1_000_000, sn.table.nodes.iter().map(|n| (n.1, n.2)).collect::<Vec<_>>(), sn.signed_table.nodes.len(), wr.ackers);
+        }
+        w.set_trace(TraceLevel::Full);
+        w.clear_trace();
+    }
+    own.poll(w.now());
+    let d = (60 + rng.below(400)) * MS;
+    w.run_for(d);
+    own.poll(w.now());
+    let in_flight = snapshot(&w, &net.nodes[ri]).map(|sn| sn.iterative_queries.contains(&t)).unwrap_or(false);
+    let wr2 = Written { writer: usize::MAX, ..wr };
+    let t_read = w.now();
+    let res = read(&w, &net, ri, &wr2);
+    if std::env::var("MLV_DEBUG").is_ok() {
+        let (sends, delivers) = sends_and_delivers(&w.trace_from(0));
+        eprintln!("read started at t={}ms reader={}", t_read / 1_000_000, net.nodes[ri].addr);
+        for m in sends.iter() {
+            eprintln!("  send t={}ms {} -> {} {} q={:?} keys={:?}", m.t / 1_000_000, m.from, m.to, m.k.y as char, m.k.q, match &m.k.r { Some(crate::bencode::B::Dict(x)) => x.iter().map(|(k, _)| String::from_utf8_lossy(k).into_owned()).collect::<Vec<_>>(), _ => vec![] });
+        }
+        for m in delivers.iter() {
+            eprintln!("  dlvr t={}ms {} -> {} {}", m.t / 1_000_000, m.from, m.to, m.k.y as char);
+        }
+        w.set_trace(TraceLevel::Off);
+    }
+    let end = w.now() + 120 * SEC;
+    while !own.poll(w.now()) {
+        if !matches!(w.step_until(end), Step::Node(_) | Step::Raw(_)) {
+            break;
+        }
+    }
+    if in_flight {
+        r.count("own_put_window/read_started_while_the_puts_lookup_was_open");
+        r.nontrivial(mix(seed, w.order_hash()));
+    }
+    match res {
+        Ok(true) => r.count(&format!("found/reader-busy-own-put/{}", kinds[kind])),
+        Ok(false) => r.violation(&format!("read/reader-busy-own-put/not-found/{}", kinds[kind]), "a value whose put returned Ok was not returned by a later lookup on another node (the reader had its own put for the key in flight, waiting for a crashed node to time out)", case.clone(), json!({"lookup_open_at_read": in_flight, "delay_ms": d / MS})),
+        Err(e) => r.violation("read/reader-busy-own-put/did-not-complete", &format!("reader lookup: {e}"), case.clone(), json!({})),
+    }
+    if w.stuck() {
+        r.inconclusive("scheduler watchdog fired");
+    }
+    drop(net);
+    w.shutdown();
+    for (thread, loc, msg) in crate::take_panics() {
+        r.violation(&format!("panic/{loc}"), &format!("thread {thread} panicked: {msg}"), case.clone(), json!({}));
+    }
+}
+
 fn gen_params(rng: &mut Rng, quick: bool) -> Params {
     let servers = *rng.pick(&[1usize, 2, 3, 4, 5, 6, 8, 10, 12, 16, 20]);
     let clients = *rng.pick(&[0usize, 0, 1, 2, 5, 10, if quick { 12 } else { 30 }]);
@@ -630,6 +855,14 @@ pub fn run(a: &Args) -> Report {
         let c = &v["case"];
         if c["class"] == "late-joiner" {
             late_joiner_scenario(&mut r, c["seed"].as_str().and_then(|s| s.parse().ok()).unwrap_or(1));
+            return r;
+        }
+        if c["class"] == "shared-key" {
+            shared_key_scenario(&mut r, c["seed"].as_str().and_then(|s| s.parse().ok()).unwrap_or(1));
+            return r;
+        }
+        if c["class"] == "own-put-window" {
+            own_put_window_scenario(&mut r, c["seed"].as_str().and_then(|s| s.parse().ok()).unwrap_or(1));
             return r;
         }
         if c["class"] == "large-network" {
@@ -668,6 +901,14 @@ pub fn run(a: &Args) -> Report {
         let s = rng.u64();
         super::guarded(&mut r, json!({"class":"late-joiner","seed":s.to_string()}), |r| late_joiner_scenario(r, s));
         r.count("late_joiner_scenarios");
+    }
+    for _ in 0..(if a.quick() { 320 } else { 6400 }) / a.nshards.max(1) {
+        let s = rng.u64();
+        super::guarded(&mut r, json!({"class":"shared-key","seed":s.to_string()}), |r| shared_key_scenario(r, s));
+        r.count("shared_key_scenarios");
+        let s = rng.u64();
+        super::guarded(&mut r, json!({"class":"own-put-window","seed":s.to_string()}), |r| own_put_window_scenario(r, s));
+        r.count("own_put_window_scenarios");
     }
     r
 }
